@@ -184,3 +184,91 @@ inline Seg gen_seg(const std::vector<V> &l, int pct_compress) {
 inline bool has_compression(const Seg &s) { for (int x : s) if (x != 1) return true; return false; }
 
 }  // namespace avg
+
+// ---- reading the rtosc layout back into V lists (own expansion of ranges; arrays keep their element lists)
+namespace avg {
+inline bool from_scalar(const rtosc_arg_val_t &a, V &v) {
+  v = V();
+  v.t = a.type;
+  switch (a.type) {
+    case 'i': case 'c': case 'r': v.i = a.val.i; return true;
+    case 'h': v.i = a.val.h; return true;
+    case 't': v.i = (int64_t)a.val.t; return true;
+    case 'm': v.i = (int32_t)(((uint32_t)a.val.m[0] << 24) | ((uint32_t)a.val.m[1] << 16) | ((uint32_t)a.val.m[2] << 8) | a.val.m[3]); return true;
+    case 'f': v.d = (double)a.val.f; return true;
+    case 'd': v.d = a.val.d; return true;
+    case 's': case 'S': v.s = a.val.s ? a.val.s : ""; return true;
+    case 'b': v.s.assign((const char *)a.val.b.data, (size_t)std::max(0, a.val.b.len)); return true;
+    case 'T': case 'F': case 'N': case 'I': return true;
+  }
+  return false;
+}
+// returns number of raw entries consumed, 0 on malformed layout. 'limit' bounds expansion.
+inline size_t expand(const rtosc_arg_val_t *a, size_t n, std::vector<V> &out, std::string &err, bool inside_array = false) {
+  size_t i = 0;
+  while (i < n) {
+    if (a[i].type == 'a') {
+      V v; v.t = 'a'; v.at = rtosc_av_arr_type(&a[i]);
+      int32_t len = rtosc_av_arr_len(&a[i]);
+      if (len < 0 || i + 1 + (size_t)len > n) { err = "array length runs past the list"; return 0; }
+      if (expand(a + i + 1, (size_t)len, v.el, err, true) != (size_t)len) { if (err.empty()) err = "array contents malformed"; return 0; }
+      out.push_back(v);
+      i += 1 + (size_t)len;
+    } else if (a[i].type == '-') {
+      int32_t num = rtosc_av_rep_num(&a[i]);
+      int32_t hd = rtosc_av_rep_has_delta(&a[i]);
+      if (num < 0 || num > 100000) { err = "absurd range count"; return 0; }
+      size_t need = hd ? 3 : 2;
+      if (i + need > n) { err = "range runs past the list"; return 0; }
+      if (num == 0) {  // infinite range, only at the end of arrays: represented as a marker value
+        V inf; inf.t = '-'; inf.at = hd ? 'd' : 'c';
+        if (!inside_array) { err = "infinite range outside an array"; return 0; }
+        V s, d;
+        if (hd) { if (!from_scalar(a[i + 1], d) || !from_scalar(a[i + 2], s)) { err = "infinite range operands"; return 0; } inf.el = {s, d}; }
+        else { if (a[i + 1].type == 'a') { err = "infinite array range unsupported by harness"; return 0; } if (!from_scalar(a[i + 1], s)) { err = "infinite range operand"; return 0; } inf.el = {s}; }
+        out.push_back(inf);
+        i += need;
+        continue;
+      }
+      if (hd) {
+        V d, s;
+        if (!from_scalar(a[i + 1], d) || !from_scalar(a[i + 2], s)) { err = "range operands are not scalars"; return 0; }
+        for (int k = 0; k < num; k++) out.push_back(nth(s, d, k));
+        i += 3;
+      } else {
+        if (a[i + 1].type == 'a') {
+          std::vector<V> one;
+          int32_t len = rtosc_av_arr_len(&a[i + 1]);
+          if (len < 0 || i + 2 + (size_t)len > n) { err = "repeated array runs past the list"; return 0; }
+          if (expand(a + i + 1, 1 + (size_t)len, one, err, inside_array) != 1 + (size_t)len || one.size() != 1) { if (err.empty()) err = "repeated array malformed"; return 0; }
+          for (int k = 0; k < num; k++) out.push_back(one[0]);
+          i += 2 + (size_t)len;
+        } else {
+          V s;
+          if (!from_scalar(a[i + 1], s)) { err = std::string("repeated value has unknown type '") + a[i + 1].type + "'"; return 0; }
+          for (int k = 0; k < num; k++) out.push_back(s);
+          i += 2;
+        }
+      }
+    } else {
+      V v;
+      if (!from_scalar(a[i], v)) { err = std::string("unknown type '") + a[i].type + "' (" + std::to_string((int)a[i].type) + ")"; return 0; }
+      out.push_back(v);
+      i++;
+    }
+  }
+  return i;
+}
+inline bool list_same(const std::vector<V> &a, const std::vector<V> &b, std::string &where) {
+  if (a.size() != b.size()) { where = "length " + std::to_string(a.size()) + " vs " + std::to_string(b.size()); return false; }
+  for (size_t k = 0; k < a.size(); k++) {
+    if (a[k].t == 'a' && b[k].t == 'a') {
+      bool tf = (a[k].at == 'T' || a[k].at == 'F') && (b[k].at == 'T' || b[k].at == 'F');
+      if (!a[k].el.empty() && a[k].at != b[k].at && !tf) { where = "element " + std::to_string(k) + ": array element type '" + a[k].at + "' vs '" + b[k].at + "'"; return false; }
+      std::string w2;
+      if (!list_same(a[k].el, b[k].el, w2)) { where = "element " + std::to_string(k) + " (array): " + w2; return false; }
+    } else if (!v_same(a[k], b[k])) { where = "element " + std::to_string(k) + ": " + show(a[k]) + " vs " + show(b[k]); return false; }
+  }
+  return true;
+}
+}  // namespace avg
